@@ -243,6 +243,27 @@ fn slide_possible(aeq: &dyn Fn(usize, usize) -> bool, beq: &dyn Fn(usize, usize)
     false
 }
 
+/// a user hook that implements only equal / delete / insert: `replace` and `finish` are the
+/// trait's provided methods
+#[derive(Default)]
+struct PlainHook(Vec<DiffOp>);
+
+impl DiffHook for PlainHook {
+    type Error = ();
+    fn equal(&mut self, old_index: usize, new_index: usize, len: usize) -> Result<(), ()> {
+        self.0.push(DiffOp::Equal { old_index, new_index, len });
+        Ok(())
+    }
+    fn delete(&mut self, old_index: usize, old_len: usize, new_index: usize) -> Result<(), ()> {
+        self.0.push(DiffOp::Delete { old_index, old_len, new_index });
+        Ok(())
+    }
+    fn insert(&mut self, old_index: usize, new_index: usize, new_len: usize) -> Result<(), ()> {
+        self.0.push(DiffOp::Insert { old_index, new_index, new_len });
+        Ok(())
+    }
+}
+
 fn run_script(focus: Focus, a: &[u32], b: &[u32], script: &[Step], po: usize, pn: usize, out: &mut Local) {
     run_script_typed::<u32>(focus, a, b, 8888, &[6666, 6666], script, po, pn, out)
 }
@@ -289,7 +310,9 @@ where
 
     // 3/4: the same adapters around a BORROWED capture hook; 5: one Replace object used for two
     // scripts in a row (everything must have been flushed by the time finish returned)
-    let stacks: &[u8] = if focus == Focus::C09 { &[2, 4] } else { &[0, 1, 2, 3, 4, 5] };
+    // 6: a doubled Replace (the inner one RECEIVES replace calls), 7: Replace in front of a user hook that
+    // only implements equal/delete/insert (the trait's provided `replace` runs), 8: Replace in front of Compact
+    let stacks: &[u8] = if focus == Focus::C09 { &[2, 4] } else { &[0, 1, 2, 3, 4, 5, 6, 7, 8] };
     for &stack in stacks {
         out.eval();
         let r = guard(|| -> (Vec<DiffOp>, usize) {
@@ -343,6 +366,30 @@ where
                     }
                     (cap.into_ops(), 0)
                 }
+                6 => {
+                    let mut c = Replace::new(Replace::new(Capture::new()));
+                    for op in &ops_in {
+                        op.apply_to_hook(&mut c).unwrap();
+                    }
+                    c.finish().unwrap();
+                    (c.into_inner().into_inner().into_ops(), 0)
+                }
+                7 => {
+                    let mut c = Replace::new(PlainHook::default());
+                    for op in &ops_in {
+                        op.apply_to_hook(&mut c).unwrap();
+                    }
+                    c.finish().unwrap();
+                    (c.into_inner().0, 0)
+                }
+                8 => {
+                    let mut c = Replace::new(Compact::new(Capture::new(), &old, &new));
+                    for op in &ops_in {
+                        op.apply_to_hook(&mut c).unwrap();
+                    }
+                    c.finish().unwrap();
+                    (c.into_inner().into_inner().into_ops(), 0)
+                }
                 _ => {
                     // the script twice through ONE Replace object: the second half of what the inner
                     // capture holds must be what a fresh adapter produces
@@ -361,7 +408,17 @@ where
                 }
             }
         });
-        let name = ["Compact<Capture>", "Replace<Capture>", "Compact<Replace<Capture>>", "Replace<&mut Capture>", "Compact<Replace<&mut Capture>>", "Replace<Capture> re-used after finish"][stack as usize];
+        let name = [
+            "Compact<Capture>",
+            "Replace<Capture>",
+            "Compact<Replace<Capture>>",
+            "Replace<&mut Capture>",
+            "Compact<Replace<&mut Capture>>",
+            "Replace<Capture> re-used after finish",
+            "Replace<Replace<Capture>>",
+            "Replace<user hook without its own replace>",
+            "Replace<Compact<Capture>>",
+        ][stack as usize];
         match r {
             Err(p) => {
                 if focus == Focus::C10 {
@@ -386,7 +443,7 @@ where
                                 format!("{}: script deletes {} / inserts {} items, output deletes {} / inserts {} | {} | out={}", name, d0, i0, v.deleted, v.inserted, ctx(), fmt_ops(&ops)),
                             );
                         }
-                        if stack == 1 || stack == 3 || stack == 5 {
+                        if stack == 1 || stack == 3 || stack == 5 || stack == 6 {
                             for (code, msg) in &v.carried {
                                 out.violation(code, format!("{}: {} | {} | out={}", name, msg, ctx(), fmt_ops(&ops)));
                             }
